@@ -1,6 +1,7 @@
 package work_package
 
 import (
+	"github.com/New-JAMneration/JAM-Protocol/PVM"
 	"github.com/New-JAMneration/JAM-Protocol/internal/types"
 	"github.com/New-JAMneration/JAM-Protocol/internal/utilities/hash"
 	"github.com/New-JAMneration/JAM-Protocol/internal/utilities/merkle_tree"
@@ -62,4 +63,62 @@ func ZZ_C32_spec() {
 	zzvt.Assert(int(spec.Length) == len(bundle), "bundle-length")
 	zzvt.Assert(int(spec.ExportsCount) == len(exports), "export-count")
 	zzvt.Assert(types.OpaqueHash(spec.ExportsRoot) == merkle_tree.M(blobs, hash.Blake2bHash), "exports-root")
+}
+
+// zzExec is a refinement environment: it returns whatever the harness chose.
+type zzExec struct{ out PVM.RefineOutput }
+
+func (e *zzExec) Psi_I(p types.WorkPackage, c types.CoreIndex, code types.ByteSequence) PVM.Psi_I_ReturnType {
+	return PVM.Psi_I_ReturnType{}
+}
+func (e *zzExec) RefineInvoke(input PVM.RefineInput) PVM.RefineOutput { return e.out }
+
+// ZZ_C32_item: the per-item result I (14.11) with refinement as an environment that returns
+// any outcome (ok / panic / out-of-gas), 0..2 output bytes, 0..2 exported segments and any
+// gas, for an item declaring 0..2 exports and an accumulated output size at, just below and far
+// below the report limit: oversize and wrong export counts and failed refinements all yield
+// the declared number of zero segments (so that later items keep their segment offsets),
+// a successful one yields its own exports; the result kind and the gas are passed on.
+//zz:workers=8
+func ZZ_C32_item() {
+	declared := zzvt.Range("declaredExports", 0, 2)
+	var wp types.WorkPackage
+	wp.Items = []types.WorkItem{{ExportCount: types.U16(declared)}}
+	kind := []types.WorkExecResultType{types.WorkExecResultOk, types.WorkExecResultPanic, types.WorkExecResultOutOfGas}[zzvt.Range("outcome", 0, 2)]
+	r := zzvt.Bytes("output", zzvt.Range("outputLen", 0, 2))
+	exported := make([]types.ExportSegment, zzvt.Range("exported", 0, 2))
+	for i := range exported {
+		exported[i][0] = zzvt.U8("segment") | 1
+	}
+	gas := types.Gas(zzvt.U64("gas"))
+	rSum := []int{0, types.WorkReportOutputBlobsMaximumSize - 1, types.WorkReportOutputBlobsMaximumSize}[zzvt.Range("priorOutput", 0, 2)]
+	ex := &zzExec{PVM.RefineOutput{WorkResult: kind, RefineOutput: r, ExportSegment: exported, Gas: gas}}
+	res, u, segs := I(wp, 0, nil, nil, nil, nil, ex, rSum, 0)
+	zzvt.Assert(u == gas, "gas-passed-on")
+	oversize := len(r)+rSum > types.WorkReportOutputBlobsMaximumSize
+	zeros := func() {
+		zzvt.Assert(len(segs) == declared, "failed-item-yields-the-declared-number-of-segments")
+		for _, s := range segs {
+			zzvt.Assert(s == types.ExportSegment{}, "failed-item-yields-zero-segments")
+		}
+	}
+	switch {
+	case oversize:
+		zzvt.Assert(res.Type == types.WorkExecResultReportOversize, "oversize-result")
+		zeros()
+	case len(exported) != declared:
+		zzvt.Assert(res.Type == types.WorkExecResultBadExports, "bad-exports-result")
+		zeros()
+	case kind != types.WorkExecResultOk:
+		zzvt.Assert(res.Type == kind, "failure-kind-passed-on")
+		zeros()
+	default:
+		zzvt.Assert(res.Type == types.WorkExecResultOk && zzvt.EqBytes(res.Data, r), "ok-result-carries-the-output")
+		zzvt.Assert(len(segs) == declared, "ok-item-yields-its-exports")
+		for i := range segs {
+			if i < len(exported) {
+				zzvt.Assert(segs[i] == exported[i], "ok-item-yields-its-exports")
+			}
+		}
+	}
 }
